@@ -18,7 +18,7 @@ from ..gen import c01_misc as MI
 from ..gen import c01_rs as RS
 
 PID = "C01"
-COQ_HEADER = ("From Coq Require Import List NArith ZArith.\nFrom SK Require Import lib.Tok lib.LGraph model.C01_Model model.C02_Model model.C01_Opts model.C01_String model.C01_Attrs model.C01_CleanWc model.C01_Rsmi model.C01_Nbrs model.C01_Conv model.C01_G2M model.C01_Rewrite model.C01_DecRaw.\nFrom Coq Require Import String.\n"
+COQ_HEADER = ("From Coq Require Import List NArith ZArith.\nFrom SK Require Import lib.Tok lib.LGraph model.C01_Model model.C02_Model model.C01_Opts model.C01_String model.C01_Attrs model.C01_CleanWc model.C01_Rsmi model.C01_Nbrs model.C01_Conv model.C01_G2M model.C01_Rewrite model.C01_DecRaw model.C01_Prem.\nFrom Coq Require Import String.\n"
               "Import ListNotations.\nOpen Scope Z_scope.\n")
 SHARD = 400
 IMPL_TIMEOUT = 1500
@@ -86,6 +86,9 @@ ASSUMPTIONS = [
     "rsmi_to_its always passes the legacy list, whatever node_attrs the caller gives",
     "RDKit contract R1 (premise of C01_rsmi_pipeline): for a well-formed graph that is the MolToGraph reading of a molecule RDKit has read, "
     "reading back what RDKit writes for GraphToMol's RWMol gives the same mapped graph",
+    "hydrogen balance (theorems C01_hydrogen_balance, C01_string_hydrogen_balance, C01_h_to_explicit_balance): no hydrogen atom is bonded to two "
+    "non-hydrogen atoms (one_parent) and an atom that is a hydrogen on a side has hcount 0 there (h_safe) - both hold for every sanitised RDKit reading; "
+    "isotope labels and stereo descriptors are not carried by the ITS and are ignored when the unmapped sides are compared",
     "atom-map-equivalence of strings is taken modulo spectator explicit hydrogens (a mapped H bonded to the same single heavy atom on both "
     "sides): its_to_rsmi writes those implicitly by design",
 ]
@@ -96,11 +99,15 @@ TESTED_NOT_PROVED = [
     "reactions with explicit reacting hydrogens end to end: the graph-level statements are theorems C01_implicit_hydrogen and C01_its_to_graphs, the "
     "string-level conclusion (C01_rsmi_pipeline) is proved only for reactions without explicit hydrogen atoms (for the writer option "
     "explicit_hydrogen=True it is proved for all balanced reactions: C01_rsmi_pipeline_explicit)",
+    "RDKit reads a re-rooted / fragment-shuffled SMILES as the same atoms in another index order with the same bonds (hypothesis `rewritten` of "
+    "C01_rewriting_invariant / C01_written_invariant): evaluated by the proved-sound executable test rewrittenb on every rw-premise case",
+    "implicit_hydrogen and h_to_explicit conserve hydrogen atoms + hcounts on the implementation itself: oracle clauses implicit-h-balance (every ih case "
+    "without bridging hydrogens) and eh-h-balance (every str-eh-* case)",
     "W0: what MolToSmiles returns never contains '>' (premise of C01_rsmi_string_roundtrip / _explicit): oracle clause string-format on every rs-str "
     "case with default options, and the str-* oracle requires exactly one '>>' in what its_to_rsmi writes",
     "implicit_hydrogen keeps every non-hydrogen atom's total H on graphs whose hydrogens have one bond: oracle on every ih case (theorem C01_implicit_hydrogen for all well-formed graphs)",
 ]
-LEVEL_TEXT = ("Machine-checked proof (Coq, 46 theorems) over an executable model of ITSConstruction.construct/ITSGraph and its_decompose: for all well-formed "
+LEVEL_TEXT = ("Machine-checked proof (Coq, 52 theorems) over an executable model of ITSConstruction.construct/ITSGraph and its_decompose: for all well-formed "
               "reactant/product graphs on the same node set with positive bond orders, decompose(construct(G,H)) returns exactly G and H "
               "(atoms, element, aromaticity, hydrogen count, charge, atom_map = node id, every bond with its order) - for every value of "
               "ignore_aromaticity, balance_its, store and attributes_defaults; the ITS has exactly the union of the nodes and bonds, every bond "
@@ -167,6 +174,8 @@ def impl(case):
         return RS.obs_rw_premise(case)
     if k == "dec-raw":
         return RS.obs_dec_raw(case)
+    if k == "str-prem":
+        return RS.obs_prem(case)
     if k == "api-misc":
         return MI.obs(case)
     if k == "attrs":
@@ -224,6 +233,8 @@ def coq_case(case):
             return RS.coq_rw_premise(case)
         if k == "dec-raw":
             return RS.coq_dec_raw(case)
+        if k == "str-prem":
+            return RS.coq_prem(case)
         if k == "api-misc":
             return MI.coq(case)
         if k == "attrs":
@@ -506,7 +517,7 @@ def eh_balance(rsmi):
 def oracle(case):
     if case.get("kind") == "ih":
         return (ih_clauses(case["G"], case["pres"]) + ih_balance(case["G"], case["pres"]))[:3]
-    if case.get("kind") in ("m2g", "g2r", "g2m", "cwc", "rs-split", "conv-hist", "g2m-abs", "rw-premise", "dec-raw"):
+    if case.get("kind") in ("m2g", "g2r", "g2m", "cwc", "rs-split", "conv-hist", "g2m-abs", "rw-premise", "dec-raw", "str-prem"):
         return []
     if case.get("kind") == "rs-str":
         return RS.oracle_rs(case, R.well_formed)
@@ -581,7 +592,7 @@ def neighbours(case, rng):
 def nontrivial(case, obs):
     if case.get("kind") == "ih":
         return bool(case["pres"]) and any(a["element"] == "H" for _, a in case["G"]["nodes"])
-    if case.get("kind") in ("m2g", "g2r", "g2m", "api-misc", "attrs", "cwc", "rs-split", "rs-str", "conv-hist", "g2m-abs", "rw-premise", "dec-raw"):
+    if case.get("kind") in ("m2g", "g2r", "g2m", "api-misc", "attrs", "cwc", "rs-split", "rs-str", "conv-hist", "g2m-abs", "rw-premise", "dec-raw", "str-prem"):
         return False
     if case.get("kind", "").startswith("hist-"):
         return True
@@ -622,7 +633,7 @@ def distribution(cases, obss):
             if k.startswith("hist-"):
                 extra["history_steps"] = extra.get("history_steps", 0) + len(c["steps"])
                 continue
-            if k in ("g2r", "g2m", "api-misc", "attrs", "cwc", "rs-split", "rs-str", "conv-hist", "g2m-abs", "rw-premise", "dec-raw"):
+            if k in ("g2r", "g2m", "api-misc", "attrs", "cwc", "rs-split", "rs-str", "conv-hist", "g2m-abs", "rw-premise", "dec-raw", "str-prem"):
                 if k == "rw-premise":
                     extra["rw_premise_holds"] = extra.get("rw_premise_holds", 0) + (o == [True, True] or o == [1, 1])
                 if k == "rs-str":
@@ -1140,6 +1151,7 @@ def gen_histories(rsmi_cases, rng, n_str, n_pair):
     extra += RS.gen_g2m_abs(gen_ih(rng, max(40, n_pair // 3)), rng)
     extra += RS.gen_rw_premise(rs, rng, max(40, n_str))
     extra += RS.gen_dec_raw(rng, max(120, n_pair))
+    extra += RS.gen_prem([c["rsmi"] for c in rsmi_cases if c.get("kind") in ("corpus", "rw-reroot", "corpus-malformed")] + list(HAND_STR) + list(DEGEN_STR), rng, _unmap_some)
     return HI.gen_hist_str(rs, rng, n_str) + HI.gen_hist_pair(pairs, rng, n_pair, _opts) + extra
 
 
